@@ -172,7 +172,7 @@ def handle (c : AddrCodec) (now : Int) (s : State) (m : PnftMsg) : Outcome State
       let old := getOwner s denomId id
       let s1 := { s with nfts := s.nfts.del (nftKey denomId id) }
       let s2 := deleteOwner s1 denomId id old
-      .ok { s2 with supply := s2.supply.set denomId ((getSupply s2 denomId + 18446744073709551615) % 18446744073709551616) }
+      .ok { s2 with supply := s2.supply.set denomId (decU64 (getSupply s2 denomId)) }
 
 /-! ## Queries -/
 
